@@ -22,7 +22,7 @@ func init() {
 			"Producers: every fork signature (Sign, SignASN1, PrivateKey.Sign, BlindKeySign) verifies under crypto/ecdsa and every crypto/ecdsa signature verifies here. " +
 			"Fault enumeration: GenerateKey and every signing entry point under a scripted entropy reader that delivers f bytes in a given chunking (all at once, byte by byte, seeded splits, interleaved zero-length reads) and then fails permanently, f = 0..need+1 exhaustively (need measured on a never-failing reader): a nil error implies the reader never failed and at least the needed bytes were consumed; a failed reader implies a non-nil error and nil key / r,s / signature. " +
 			"distinct_nontrivial = distinct (curve, case class, r class, s class | DER class | entry point, fault position, chunking) keys",
-		Floors:      []string{"verify_agree_accept", "verify_agree_reject", "asn1_agree_accept", "asn1_agree_reject", "fork_signature_verifies_under_std", "std_signature_verifies_under_fork", "fault_error_returned", "fault_success_full_entropy", "s_plus_N_class", "asn1_bitflips", "wrapped_r_signatures", "history_verify_agrees"},
+		Floors:      []string{"verify_agree_accept", "verify_agree_reject", "asn1_agree_accept", "asn1_agree_reject", "fork_signature_verifies_under_std", "std_signature_verifies_under_fork", "fault_error_returned", "fault_success_full_entropy", "s_plus_N_class", "asn1_bitflips", "wrapped_r_signatures", "history_verify_agrees", "constructed_doubling_case_accepted_by_std", "special_public_keys_accepted_by_std", "bulk_signatures_verified"},
 		Assumptions: []string{"crypto/ecdsa of the Go toolchain that builds the harness is the reference", "entropy failures are permanent and a failing Read delivers no bytes"},
 		Run:         runC13,
 	})
@@ -422,9 +422,16 @@ func runC13(c *core.Ctx) {
 		if c.Next() {
 			c13Wrap(c, curve, c.CaseRng())
 		}
+		// ---------------- constructed special relations and special public keys
+		for t := 0; t < c.Pick(2, 60); t++ {
+			if c.Next() {
+				c13Constructed(c, curve, c.CaseRng())
+			}
+		}
 		// ---------------- entropy faults
 		c13Faults(c, curve)
 	}
+	c13Bulk(c)
 }
 
 // c13Wrap builds valid signatures with r = R.x mod N and R.x >= N: pick R on the curve with x = N+i, any s and
@@ -665,4 +672,137 @@ func c13History(c *core.Ctx, curve elliptic.Curve, r *core.Rand, tag string) {
 		c.Class("history_verify_agrees")
 	}
 	c.Distinctf("%s:history:%s", name, tag)
+}
+
+// digestFor returns digest bytes whose hashToInt value on this curve is e (e < N).
+func digestFor(curve elliptic.Curve, e *big.Int) []byte {
+	bits := curve.Params().N.BitLen()
+	nb := (bits + 7) / 8
+	if excess := nb*8 - bits; excess > 0 {
+		return new(big.Int).Lsh(e, uint(excess)).FillBytes(make([]byte, nb))
+	}
+	return e.FillBytes(make([]byte, nb))
+}
+
+// c13Constructed: valid (key, digest, r, s) quadruples in special relations that honest signing never produces:
+//   - the verification equation's two summands are EQUAL points (u1*G == u2*Q, the sum is a doubling),
+//   - they are opposite points (the sum is the point at infinity: every implementation rejects),
+//   - public keys with a zero coordinate (x = 0 where the curve has such a point), the generator itself, its negation,
+//     twice the generator, with signatures forged for the given key from chosen u1, u2.
+func c13Constructed(c *core.Ctx, curve elliptic.Curve, r *core.Rand) {
+	p := curve.Params()
+	N := p.N
+	w := (N.BitLen() + 7) / 8
+	mkKey := func(x, y *big.Int) *c13Key {
+		return &c13Key{curve: curve, fork: &ecdsa.PrivateKey{PublicKey: ecdsa.PublicKey{Curve: curve, X: x, Y: y}}, std: &stdecdsa.PrivateKey{PublicKey: stdecdsa.PublicKey{Curve: curve, X: x, Y: y}}}
+	}
+	inv := func(x *big.Int) *big.Int { return new(big.Int).ModInverse(x, N) }
+	mul := func(a, b *big.Int) *big.Int { z := new(big.Int).Mul(a, b); return z.Mod(z, N) }
+	// doubling / infinity: choose e and k; R = kG, r = R.x; d = e/r so that u2*Q = (r/s)*(e/r)*G = (e/s)*G = u1*G;
+	// the sum is 2*(e/s)*G, which must equal R = kG: s = 2e/k. With s = -2e/k ... the equal-points case stays; for
+	// opposite points take d = -e/r: u2*Q = -(e/s) G, the sum is infinity for every s.
+	for t := 0; t < 3; t++ {
+		e := new(big.Int).SetBytes(ScalarBytes(r, N, w))
+		k := new(big.Int).SetBytes(ScalarBytes(r, N, w))
+		kx, _ := curve.ScalarBaseMult(k.Bytes())
+		rr := new(big.Int).Mod(kx, N)
+		if rr.Sign() == 0 || e.Sign() == 0 {
+			continue
+		}
+		digest := digestFor(curve, e)
+		d := mul(e, inv(rr))
+		qx, qy := curve.ScalarBaseMult(d.Bytes())
+		s := mul(mul(big.NewInt(2), e), inv(k))
+		key := mkKey(qx, qy)
+		if stdecdsa.Verify(&key.std.PublicKey, digest, rr, s) {
+			c.Class("constructed_doubling_case_accepted_by_std")
+		}
+		key.verifyBoth(c, digest, rr, s, "u1*G==u2*Q(doubling)")
+		key.asn1Both(c, digest, derSig(rr, s), "u1*G==u2*Q(doubling)")
+		dn := new(big.Int).Sub(N, d)
+		nx, ny := curve.ScalarBaseMult(dn.Bytes())
+		keyN := mkKey(nx, ny)
+		keyN.verifyBoth(c, digest, rr, s, "u1*G==-u2*Q(infinity)")
+		keyN.verifyBoth(c, digest, rr, new(big.Int).SetBytes(ScalarBytes(r, N, w)), "u1*G==-u2*Q(infinity)")
+	}
+	// special public keys with forged signatures: R = u1*G + u2*Q, r = R.x, s = r/u2, e = u1*s
+	type pt struct {
+		name string
+		x, y *big.Int
+	}
+	var specials []pt
+	for _, xv := range []int64{0, 1, 2, 3, 4, 5} {
+		enc := make([]byte, 1+(p.BitSize+7)/8)
+		enc[0] = 2
+		big.NewInt(xv).FillBytes(enc[1:])
+		if x, y := elliptic.UnmarshalCompressed(curve, enc); x != nil {
+			specials = append(specials, pt{fmt.Sprintf("x=%d", xv), x, y}, pt{fmt.Sprintf("x=%d,other-y", xv), x, new(big.Int).Sub(p.P, y)})
+		}
+	}
+	g2x, g2y := curve.Double(p.Gx, p.Gy)
+	specials = append(specials, pt{"generator", p.Gx, p.Gy}, pt{"-generator", p.Gx, new(big.Int).Sub(p.P, p.Gy)}, pt{"2*generator", g2x, g2y})
+	for _, sp := range specials {
+		key := mkKey(sp.x, sp.y)
+		for t := 0; t < 2; t++ {
+			u1 := new(big.Int).SetBytes(ScalarBytes(r, N, w))
+			u2 := new(big.Int).SetBytes(ScalarBytes(r, N, w))
+			ax, ay := curve.ScalarBaseMult(u1.Bytes())
+			bx, by := curve.ScalarMult(sp.x, sp.y, u2.Bytes())
+			Rx, _ := curve.Add(ax, ay, bx, by)
+			rr := new(big.Int).Mod(Rx, N)
+			if rr.Sign() == 0 {
+				continue
+			}
+			s := mul(rr, inv(u2))
+			e := mul(u1, s)
+			digest := digestFor(curve, e)
+			if stdecdsa.Verify(&key.std.PublicKey, digest, rr, s) {
+				c.Class("special_public_keys_accepted_by_std")
+			}
+			key.verifyBoth(c, digest, rr, s, "special-public-key:"+sp.name)
+			key.asn1Both(c, digest, derSig(rr, s), "special-public-key:"+sp.name)
+			key.verifyBoth(c, flipBit(digest, 9), rr, s, "special-public-key:"+sp.name+":other-digest")
+		}
+	}
+	c.Distinctf("%s:constructed", p.Name)
+}
+
+// c13Bulk: many signatures by every ASN.1-producing entry point on the two cheapest curves, each checked by
+// crypto/ecdsa.VerifyASN1: r or s with two or more leading zero octets, or with the top bit set at an octet border,
+// appear about once per 2^16 / 2^8 signatures and exercise the DER integer encoder's corners.
+func c13Bulk(c *core.Ctx) {
+	total := c.Pick(220000, 4000000)
+	const chunk = 2000
+	for lo := 0; lo < total; lo += chunk {
+		if !c.Next() {
+			continue
+		}
+		r := c.CaseRng()
+		curve := []elliptic.Curve{elliptic.P256(), elliptic.P224()}[(lo/chunk)%2]
+		k := c13MkKey(r, curve)
+		short := 0
+		for i := 0; i < chunk; i++ {
+			digest := r.Bytes(32)
+			var der []byte
+			var err error
+			if i%2 == 0 {
+				der, err = ecdsa.SignASN1(r, k.fork, digest)
+			} else {
+				der, err = k.fork.Sign(r, digest, crypto.SHA256)
+			}
+			if err != nil || !stdecdsa.VerifyASN1(&k.std.PublicKey, digest, der) || !ecdsa.VerifyASN1(&k.fork.PublicKey, digest, der) {
+				c.Violation(curve.Params().Name+":bulk-signature-rejected", fmt.Sprintf("a signature produced here is rejected by crypto/ecdsa.VerifyASN1 or by this package's own VerifyASN1 (err=%v)", err),
+					map[string]any{"curve": curve.Params().Name, "digest": core.Hex(digest), "signature": core.Hex(der), "private_key": k.fork.D.Text(16)})
+				return
+			}
+			if len(der) <= 2*((curve.Params().N.BitLen()+7)/8)+6-2 {
+				short++
+			}
+		}
+		c.Eval(chunk)
+		c.ClassN("bulk_signatures_verified", chunk)
+		if short > 0 {
+			c.ClassN("bulk_signatures_with_a_short_integer", int64(short))
+		}
+	}
 }
